@@ -229,9 +229,12 @@ func c03(r *core.Run) {
 		// stands for "closeFn starts" and its last step (close of the in-channel) for "closeFn is done"
 		var closeEnd ssa.Instruction
 		if a.Close == fn {
-			for _, ac := range core.FieldAccesses([]*ssa.Function{fn}, func(f core.Field) bool { return f == a.WorkQueue }) {
+			for _, ac := range core.FieldAccesses(p.Helpers(fn), func(f core.Field) bool { return f == a.WorkQueue }) {
 				if ac.Kind == "store" && storeShape(ac.Instr.(*ssa.Store).Val, a) == "nil" {
-					closeCall = ac.Instr
+					// (the step may sit in a private helper: it is represented by the helper's call)
+					if l := p.Lift(ac.Instr, fn); len(l) == 1 {
+						closeCall = l[0]
+					}
 				}
 			}
 			for _, c := range core.Calls(fn) {
@@ -329,14 +332,26 @@ func c03(r *core.Run) {
 		r.Check(storeStarted != nil && firstGo != nil && workersDominate(fn, a, storeStarted), "S2", fname, "go-workers-dom-Store(started)", posOf(p, storeStarted), "all workers are started before the service is published as started", "Store(started) is not after the worker start loop")
 		r.Check(storeStarted != nil && subscribe != nil && core.Dominates(storeStarted, subscribe), "S2", fname, "Store(started)-dom-subscribe", posOf(p, subscribe), "requests can only arrive after the service accepts submissions", "subscriptions are made before the service is started: early requests would be refused by enqueue and never answered")
 		// serve waits for workers before returning on every path after they were started
-		for _, ret := range core.Returns(fn) {
-			if firstGo != nil && core.Reaches(firstGo, ret) {
-				w := false
-				for _, c := range core.Calls(fn) {
-					if cal := c.Common().StaticCallee(); cal != nil && cal.String() == "(*sync.WaitGroup).Wait" && !core.IsGo(c) && core.Dominates(c, ret) {
-						w = true
+		// typestate: 1 = workers were started and not yet awaited
+		var waitFlow *core.FlowResult
+		if firstGo != nil {
+			fl := &core.Flow{Fn: fn, Entry: core.StateSet(0).Add(0)}
+			fl.Transfer = func(in ssa.Instruction, st int) core.StateSet {
+				if c, ok := in.(ssa.CallInstruction); ok {
+					if core.IsGo(c) && c.Common().StaticCallee() == a.Worker {
+						return core.StateSet(0).Add(1)
+					}
+					if cal := c.Common().StaticCallee(); cal != nil && cal.String() == "(*sync.WaitGroup).Wait" && !core.IsGo(c) && !core.IsDefer(c) {
+						return core.StateSet(0).Add(0)
 					}
 				}
+				return core.StateSet(0).Add(st)
+			}
+			waitFlow = fl.Run()
+		}
+		for _, ret := range core.Returns(fn) {
+			if firstGo != nil && core.Reaches(firstGo, ret) {
+				w := waitFlow != nil && !waitFlow.Before[ret].Has(1)
 				r.Check(w, "S2", fname, "return-after-wg.Wait", p.InstrPos(ret), "Serve returns only after all workers exited", "Serve can return while workers are still running")
 			}
 		}
